@@ -327,6 +327,15 @@ func c08Overlap(c *fw.Ctx, idx int) {
 			}
 			mn[i], mx[i] = a, b
 		}
+		if stride > 2 && r.Chance(1, 4) {
+			// only X and Y are populated, the further dimensions stay empty (what a
+			// Z-capable box extended with XY geometries looks like)
+			b := geom.NewBounds(layout).Set(mn[0], mn[1], mx[0], mx[1])
+			for i := 2; i < stride; i++ {
+				mn[i], mx[i] = math.Inf(1), math.Inf(-1)
+			}
+			return b, mn, mx, false
+		}
 		b := geom.NewBounds(layout).Set(append(append([]float64{}, mn...), mx...)...)
 		return b, mn, mx, false
 	}
@@ -353,6 +362,9 @@ func c08Overlap(c *fw.Ctx, idx int) {
 	c.Count(fmt.Sprintf("overlap_%v", want))
 	if e1 || e2 {
 		c.Count("overlap_with_empty_box")
+	}
+	if !e1 && !e2 && (math.IsInf(mn1[stride-1], 1) || math.IsInf(mn2[stride-1], 1)) {
+		c.Count("overlap_with_partly_empty_box")
 	}
 	touching := false
 	for i := 0; i < tl.Stride(); i++ {
@@ -405,6 +417,6 @@ func init() {
 			{Name: "extend-orders", Quick: 6000, Thorough: 300000, Run: c08Extend},
 			{Name: "overlaps", Quick: 100000, Thorough: 3000000, Run: c08Overlap},
 		},
-		Require: []string{"collections", "nested_collections", "collections_mixing_layouts", "coordinate_free", "permutation_sets_fully_enumerated", "extend_mixing_xyz_and_xym", "overlap_true", "overlap_false", "overlap_touching", "overlap_with_empty_box", "overlaps_point_true", "overlaps_point_false"},
+		Require: []string{"collections", "nested_collections", "collections_mixing_layouts", "coordinate_free", "permutation_sets_fully_enumerated", "extend_mixing_xyz_and_xym", "overlap_true", "overlap_false", "overlap_touching", "overlap_with_empty_box", "overlap_with_partly_empty_box", "overlaps_point_true", "overlaps_point_false"},
 	})
 }
